@@ -86,7 +86,25 @@ func checkC15(c *Check) {
 	}
 	io := ioFuncs(p)
 	fns := moduleFuncs(p, pkgStream, pkgRoot)
-	ruleErrorsNotDiscarded(c, p, "R15.1", fns, func(f *ssa.Function) bool { return io[f] }, map[string]string{
+	// functions that hand out the latched sink / source error count as I/O for this purpose:
+	// discarding their result discards the I/O failure
+	returnsLatch := func(f *ssa.Function) bool {
+		if !inModule(f) {
+			return false
+		}
+		found := false
+		allInstrs(f, func(in ssa.Instruction) {
+			if r, ok := in.(*ssa.Return); ok {
+				for _, res := range r.Results {
+					if isErrorType(res.Type()) && (loadField(res) == "Blocks.err" || derivesFromField(res, "Blocks.err")) {
+						found = true
+					}
+				}
+			}
+		})
+		return found
+	}
+	ruleErrorsNotDiscarded(c, p, "R15.1", fns, func(f *ssa.Function) bool { return io[f] || returnsLatch(f) }, map[string]string{
 		"Frame.Reset#discard:Blocks.close": "documented: pending data may be dropped when Reset is called without Close (writer.go: 'w.Close must be called before Reset or pending data may be dropped')",
 	})
 	ruleErrorsNotAbsorbed(c, p, "R15.E", fns, errAbsorbExempt)
